@@ -108,6 +108,17 @@ def compilable(case):
     return True
 
 
+def _target_dir():
+    """the cargo target directory of the generated crate; one per repository path, so that runs against different working
+    trees (seeded changes, benign changes) can go on at the same time"""
+    import hashlib
+    tag = "" if common.REPO == "/repo" else "-" + hashlib.md5(common.REPO.encode()).hexdigest()[:8]
+    return os.path.join(common.CACHE, "c09target" + tag)
+
+
+C09_TARGET = _target_dir()
+
+
 def gen_program(cases, bom=False):
     """Returns (text of generated.rs, list of (uid, case, first_line, last_line))."""
     out = [("\ufeff" if bom else "") + "#![allow(unused, unreachable_code, clippy::all)]\nuse log::{info, warn, error};\nconst TGT: &str = \"const-target\";\n\n"]
@@ -130,7 +141,7 @@ def gen_program(cases, bom=False):
 
 
 def cargo(args, cwd, timeout=1800):
-    env = dict(os.environ, CARGO_NET_OFFLINE="true", CARGO_TARGET_DIR=os.path.join(common.CACHE, "c09target"),
+    env = dict(os.environ, CARGO_NET_OFFLINE="true", CARGO_TARGET_DIR=C09_TARGET,
                RUSTFLAGS="-A warnings")
     env.pop("RUST_LOG", None)
     p = subprocess.run(["cargo"] + args, cwd=cwd, env=env, stdout=subprocess.PIPE, stderr=subprocess.STDOUT, text=True,
@@ -142,7 +153,7 @@ def build_and_run(crate):
     rc, out = cargo(["build", "--offline", "--quiet"], crate)
     if rc != 0:
         return None, out
-    exe = os.path.join(common.CACHE, "c09target", "debug", "c09prog")
+    exe = os.path.join(C09_TARGET, "debug", "c09prog")
     p = subprocess.run([exe], stdout=subprocess.PIPE, stderr=subprocess.PIPE, text=True, timeout=300, errors="replace")
     if p.returncode != 0:
         return None, "program exited with %s: %s" % (p.returncode, p.stderr[-500:])
